@@ -1737,7 +1737,7 @@ impl GRLParser {
 
         // Handle expressions like: $TestCar.Speed + $TestCar.SpeedIncrement
         let mut args = Vec::new();
-        let parts: Vec<&str> = args_str.split(',').collect();
+        let parts = Self::split_arguments(args_str);
 
         for part in parts {
             let trimmed = part.trim();
@@ -1758,6 +1758,32 @@ impl GRLParser {
         Ok(args)
     }
 
+    /// Split an argument list at the commas that are outside string literals
+    fn split_arguments(args_str: &str) -> Vec<&str> {
+        let mut parts = Vec::new();
+        let mut quote: Option<char> = None;
+        let mut start = 0;
+        for (i, ch) in args_str.char_indices() {
+            match quote {
+                Some(q) => {
+                    if ch == q {
+                        quote = None;
+                    }
+                }
+                None => match ch {
+                    '"' | '\'' => quote = Some(ch),
+                    ',' => {
+                        parts.push(&args_str[start..i]);
+                        start = i + 1;
+                    }
+                    _ => {}
+                },
+            }
+        }
+        parts.push(&args_str[start..]);
+        parts
+    }
+
     /// Parse function arguments as parameters for custom actions
     fn parse_function_args_as_params(&self, args_str: &str) -> Result<HashMap<String, Value>> {
         let mut params = HashMap::new();
@@ -1767,7 +1793,7 @@ impl GRLParser {
         }
 
         // Parse positional parameters as numbered args
-        let parts: Vec<&str> = args_str.split(',').collect();
+        let parts = Self::split_arguments(args_str);
         for (i, part) in parts.iter().enumerate() {
             let trimmed = part.trim();
             let value = self.parse_value(trimmed)?;
